@@ -12,6 +12,7 @@ from photon_weave._math.ops import (
     kraus_identity_check,
     num_quanta_matrix,
     num_quanta_vector,
+    reduced_state_from_vector,
 )
 from photon_weave.operation import (
     CustomStateOperationType,
@@ -455,18 +456,21 @@ class ProductState:
             in the order in which the states are given
         """
         if self.expansion_level == ExpansionLevel.Vector:
-            # Reshape the vector into tensor
-            shape = [s.dimensions for s in self.state_objs] + [1]
-            ps = self.state.reshape(shape)
+            # Reshape the vector into a matrix of amplitudes [kept, traced out]
+            shape = [s.dimensions for s in self.state_objs]
+            keep = [
+                i
+                for i, so in enumerate(self.state_objs)
+                if any(so is s for s in states)
+            ]
+            rest = [i for i in range(len(shape)) if i not in keep]
+            kept_dims = int(jnp.prod(jnp.array([shape[i] for i in keep])))
+            amplitudes = (
+                self.state.reshape(shape).transpose(keep + rest).reshape(kept_dims, -1)
+            )
 
-            # Compute einsum string
-            einsum = ESC.trace_out_vector(self.state_objs, list(states))
-
-            # Perform the tracing
-            traced_out_state = jnp.einsum(einsum, ps)
-
-            # Reshape and return
-            return traced_out_state.reshape((-1, 1))
+            # The reduced state is a vector only if it is pure
+            return reduced_state_from_vector(amplitudes)
         elif self.expansion_level == ExpansionLevel.Matrix:
             # Reshape the matrix into tensor
             ps = self.state.reshape([s.dimensions for s in self.state_objs] * 2)
